@@ -116,14 +116,14 @@ class ClassInfo:
 
 
 class Module:
-    def __init__(self, name, path, relpath, src):
+    def __init__(self, name, path, relpath, src, inline=True):
         self.name = name
         self.path = path
         self.relpath = relpath
         self.src = src
         from .canon import canonicalise
 
-        self.tree = canonicalise(ast.parse(src, filename=path))
+        self.tree = canonicalise(ast.parse(src, filename=path), inline=inline)
         self.lines = src.split("\n")
         self.is_pkg = os.path.basename(path) == "__init__.py"
         self.imports = {}  # local name -> ("module", modname) | ("symbol", modname, symname)
@@ -139,9 +139,19 @@ class Module:
 
 
 class Repo:
-    def __init__(self, root=None, overrides=None):
+    def plain(self):
+        """the same sources without helper inlining (cached)"""
+        if not self.inline:
+            return self
+        if getattr(self, "_plain", None) is None:
+            self._plain = Repo(self.root, self.overrides, inline=False)
+        return self._plain
+
+    def __init__(self, root=None, overrides=None, inline=True):
+        """inline=False keeps private helpers as calls (for rules that reason with helper calls as atoms, e.g. C13)"""
         self.root = root or REPO_ROOT
         self.overrides = overrides or {}
+        self.inline = inline
         self.modules = {}
         self.by_relpath = {}
         self._load()
@@ -168,7 +178,7 @@ class Repo:
                 if modname.endswith(".__init__"):
                     modname = modname[: -len(".__init__")]
                 try:
-                    m = Module(modname, path, rel, src)
+                    m = Module(modname, path, rel, src, inline=self.inline)
                 except SyntaxError as e:
                     raise AnalysisError(f"cannot parse {rel}: {e}")
                 self.modules[modname] = m
